@@ -211,6 +211,12 @@ pub fn exercise_v2(h: &v2::Header<'_>) -> Result<u64, u64> {
     }
     let _ = h.addresses.len();
     let _ = h.addresses.is_empty();
+    sink.clear();
+    let _ = write!(sink, "{:?}", h.addresses);
+    if h.len() < 600 {
+        let _ = write!(sink, "{:?}", h.version);
+        let _ = write!(sink, "{:?}{:?}{:?}", h.command, h.protocol, h.address_family());
+    }
     let _ = h.addresses.address_family().byte_length();
     let _ = u16::from(h.address_family());
     let o = h.to_owned();
